@@ -99,6 +99,8 @@ package tcp
 //@   modifies all
 //@   callpre lb.New @the-balancer-is-replaced-only-when-the-policy-changes arg0 == c.LbPolicy && ite(p.cfg == nil, 0, p.cfg.LbPolicy) != arg0
 //@   callpre HealthCheck).Equal @the-new-health-check-is-compared-with-the-configuration-still-in-force p.cfg == old(p.cfg)
+//@   callpre Monitor).Start @a-monitor-created-by-a-configuration-update-is-started-so-that-stop-can-wait-for-it prevresult1 == nil
+//@   alsoprop C09 C15 : a-monitor-created-by-a-configuration-update-is-started-so-that-stop-can-wait-for-it
 
 // ---- C08: the processor that is built carries the requested name and configuration ----------------------------
 
